@@ -139,14 +139,15 @@ def _shared_version_class(ctx, jobs, answers, dom):
         name = next((n for n in S.ALL if S.vclass(n) is vc), None)
         if name is None:
             continue
-        bench = B.Bench(name, rng, size=14)
-        if not bench.ok(10):
+        need = max([r for c in jobs for _k, r in c if r is not None] + [8]) + 2
+        bench = B.Bench(name, rng, size=need + 4)
+        if not bench.ok(need):
             continue
         stream = "invert-shared:" + vc.__name__
         idx = [i for i in range(len(jobs)) if dom[i]]
         for i in rng.sample(idx, min(len(idx), 200 if ctx.thorough else 60)):
             cons = jobs[i]
-            m = bench.mapping(10, rng)
+            m = bench.mapping(need, rng)
             objs = B.real_cons(bench, cons, m)
             order = list(rcs)
             rng.shuffle(order)
